@@ -104,6 +104,12 @@ def run(ctx):
     hang_faces = [[0, 1, 2, 3], [1, 4, 5, 6], [6, 5, 7, 2]]
     datasets.append(gen.ugrid(rng, mesh=(hang_nodes, hang_faces), invalid=False, supplied=set()))
     datasets.append(gen.cf2d(rng, ny=3, nx=3, bounds=True, holes='none', invalid=False, overlap=True))
+    # a mesh whose node longitudes are single precision and node latitudes double precision
+    datasets.append(gen.ugrid(rng, w=3, h=2, invalid=False, node_dtypes='x_f4'))
+    # curvilinear grids whose longitude is stored (x, y) while the latitude is stored (y, x): square and not, corners stored and not
+    datasets.append(gen.cf2d(rng, ny=3, nx=3, bounds=False, holes='none', invalid=False, lon_transposed=True))
+    datasets.append(gen.cf2d(rng, ny=3, nx=4, bounds=False, holes='corner', invalid=False, lon_transposed=True))
+    datasets.append(gen.cf2d(rng, ny=4, nx=3, bounds=True, holes='none', invalid=False, lon_transposed=True))
     # every face has four nodes but the table is six wide (each row padded with fill entries); zero-based with fill, one-based
     # writing 'nothing' as 0
     for si, fl in ((0, 'attr'), (1, 'attr0'), (0, 'nan')):
